@@ -41,6 +41,21 @@ static void text(vrng *r, uint8_t *b, size_t n)
 	static const char *w[] = { "alpha ", "beta ", "gamma ", "delta ", "epsilon ", "zeta ", "0000", "\n", "the ", "of ", "xyzzy", "AB" };
 	size_t o = 0; while (o < n) { const char *s = w[vrn(r, 12)]; size_t l = strlen(s); if (vrn(r, 7) == 0) { b[o++] = (uint8_t) vr32(r); continue; } for (size_t i = 0; i < l && o < n; i++) b[o++] = (uint8_t) s[i]; }
 }
+/* the dynamic-block header of the library's default table, used as *input data* only: an independent parser reads its code lengths, and
+ * the grammar generator then writes blocks that carry this header verbatim followed by arbitrary tokens in that code (the decoder's
+ * "header equals the pregenerated one" shortcut with data its own compressor would not produce) */
+extern const struct isal_hufftables hufftables_default;
+static uint8_t pre_l[320]; static int pre_nlen, pre_ndist, pre_ok = -1; static size_t pre_bits; static long st_foreign_hdr;
+static void pre_setup(void)
+{
+	static rinf_t pr; memset(&pr, 0, sizeof pr); pre_ok = 0;
+	pre_bits = (size_t) hufftables_default.deflate_hdr_count * 8 + hufftables_default.deflate_hdr_extra_bits;
+	if (pre_bits < 17 || pre_bits > sizeof hufftables_default.deflate_hdr * 8 || (hufftables_default.deflate_hdr[0] & 6) != 4) return;
+	pr.in = hufftables_default.deflate_hdr; pr.inlen = (pre_bits + 7) / 8; pr.bitpos = 3;
+	if (ri_dyn_header(&pr, pre_l, &pre_nlen, &pre_ndist) || pr.bitpos != pre_bits) return;
+	rh_t h; if (rh_build(&h, pre_l, pre_nlen) < 0 || rh_build(&h, pre_l + pre_nlen, pre_ndist) < 0) return;
+	pre_ok = 1;
+}
 static size_t gen_plain(vrng *r, uint8_t *b, size_t cap)
 {
 	size_t n; int f = vrn(r, 8);
@@ -76,6 +91,8 @@ static int gen_valid(vrng *r, vstream *v, int want_src, int fault)
 	if (want_src == 0) {           /* grammar generated */
 		defgen_t g; memset(&g, 0, sizeof g); g.fault = fault; g.max_blocks = vrn(r, 6) == 0 ? 12 : 5; g.want_deep = vrn(r, 3) == 0; g.want_far = vrn(r, 4) == 0;
 		size_t cap = fault ? 20000 : vrn(r, 6) == 0 ? 400000 : 60000;
+		if (pre_ok < 0) pre_setup();
+		if (pre_ok == 1 && !fault) { g.pre_hdr = hufftables_default.deflate_hdr; g.pre_hdr_bits = pre_bits; g.pre_l = pre_l; g.pre_nlen = pre_nlen; g.pre_ndist = pre_ndist; }
 		size_t pre_bytes = 0, pre_out = 0;
 		if (!fault && vrn(r, 8) == 0) {   /* 64 KiB and a bit of stored data first: what follows is decoded after the decoder has switched to writing directly into the caller's buffer; the rest is short and ends in a small last block */
 			pre_out = 65536 + vrn(r, 3000); vr_fill(r, expb, pre_out); size_t done = 0; while (done < pre_out) { size_t l = pre_out - done > 65535 ? 65535 : pre_out - done; uint8_t *q = tmpin + pre_bytes; q[0] = 0; q[1] = (uint8_t) l; q[2] = (uint8_t) (l >> 8); q[3] = (uint8_t) ~l; q[4] = (uint8_t) (~l >> 8); memcpy(q + 5, expb + done, l); pre_bytes += 5 + l; done += l; }
@@ -85,6 +102,7 @@ static int gen_valid(vrng *r, vstream *v, int want_src, int fault)
 		bl += pre_bytes; g.explen += pre_out;
 		v->elen = g.explen; v->deep = g.deep;
 		if (g.deep) st_deep++;
+		st_foreign_hdr += g.npre;
 		if (fault) { v->wrapper = RW_RAW; v->elen = g.valid_out_before_fault; }
 		v->slen = add_wrapper(r, v, tmpin, bl, expb, g.explen);
 		if (fault) { v->total_len = v->body_end = 0; }
@@ -477,7 +495,7 @@ int main(int argc, char **argv)
 	}
 	v_stat("evaluations", st_decodes); v_stat("streams", st_streams); v_stat("library_calls", st_calls); v_stat("streams_with_codes_13plus", st_deep); v_stat("finished_results_checked_against_reference", st_false_ok_checked);
 	v_stat("rejected_but_reference_lenient", st_stricter); v_stat("mutants_still_valid_and_accepted", st_benign_ok); v_stat("trailer_straddling_histories", st_trailer_straddle); v_stat("need_dict_flows", st_needdict); v_stat("valid_streams_followed_by_foreign_bytes", st_tail); v_stat("generated_streams_that_start_with_64KiB_of_stored_data", st_prefixed); v_stat("streams_over_64KiB_with_the_first_output_buffer_ending_1_to_3_bytes_early", st_near_end); v_stat("stateless_retries_on_the_same_struct_after_overflow", st_sl_retry); v_stat("streams_whose_gzip_header_the_caller_parsed_with_the_reader_first", st_pre_hdr); v_stat("stateless_calls_on_a_struct_whose_previous_call_ended_inside_the_trailer", st_sl_trunc);
-	v_stat("inflate_dict_calls_refused", st_dict_refused);
+	v_stat("inflate_dict_calls_refused", st_dict_refused); v_stat("generated_blocks_carrying_the_library_default_header_with_foreign_tokens", st_foreign_hdr);
 	v_count("stream_source", "grammar", st_kind[0]); v_count("stream_source", "zlib", st_kind[1]); v_count("stream_source", "isal", st_kind[2]);
 	v_count("flip_region", "header", st_detect[0]); v_count("flip_region", "body", st_detect[1]); v_count("flip_region", "trailer", st_detect[2]);
 	for (int m = 0; m < 7; m++) if (st_modes[m]) v_count("decodes_per_mode", modename(m), st_modes[m]);
